@@ -22,11 +22,16 @@ type Spec struct {
 	Origin    float64  `json:"origin,omitempty"`    // synthetic: x (and y unless OriginY) of the bottom-left corner
 	OriginY   *float64 `json:"originY,omitempty"`   // synthetic: y of the bottom-left corner when different
 	TopLeft   bool     `json:"topLeft,omitempty"`   // synthetic: corner of origin top-left instead of bottom-left
-	TileWidth uint     `json:"tileWidth,omitempty"` // synthetic: tile width=height (power of two), default 1
+	TileWidth uint     `json:"tileWidth,omitempty"` // synthetic: tile width=height, default 1 (the tool takes floor(log2) of it)
+	ShiftX    float64  `json:"shiftX,omitempty"`    // built-in: every point of origin translated by (ShiftX, ShiftY), in document axis order
+	ShiftY    float64  `json:"shiftY,omitempty"`
 }
 
 func (s Spec) String() string {
 	if s.Name != "" {
+		if s.ShiftX != 0 || s.ShiftY != 0 {
+			return fmt.Sprintf("%s+(%g,%g)", s.Name, s.ShiftX, s.ShiftY)
+		}
 		return s.Name
 	}
 	oy := s.Origin
@@ -46,7 +51,23 @@ func (fakeCRS) Code() string        { return "" }
 // Build returns the tile matrix set for a spec.
 func Build(s Spec) (tms20.TileMatrixSet, error) {
 	if s.Name != "" {
-		return tms20.LoadEmbeddedTileMatrixSet(s.Name)
+		t, err := tms20.LoadEmbeddedTileMatrixSet(s.Name)
+		if err != nil || (s.ShiftX == 0 && s.ShiftY == 0) {
+			return t, err
+		}
+		// a translated copy: same matrices, every point of origin moved by the same vector (the embedded value is not touched)
+		c := t
+		// the id stays the same: an id is a label, not a key
+		c.BoundingBox = nil
+		c.TileMatrices = make(map[tms20.TMID]tms20.TileMatrix, len(t.TileMatrices))
+		for id, tm := range t.TileMatrices {
+			if tm.PointOfOrigin != nil {
+				o := tms20.TwoDPoint([2]float64{tm.PointOfOrigin[0] + s.ShiftX, tm.PointOfOrigin[1] + s.ShiftY})
+				tm.PointOfOrigin = &o
+			}
+			c.TileMatrices[id] = tm
+		}
+		return c, nil
 	}
 	tw := max(s.TileWidth, 1)
 	ox, oy := s.Origin, s.Origin
@@ -81,7 +102,8 @@ type Set struct {
 	OX, OY    int64 // integer bottom-left of matrix 0
 	MaxX      int64 // integer right border (exclusive)
 	MaxY      int64 // integer top border (exclusive)
-	Span      int64
+	Span      int64 // x span; the tool derives the pixel size from it alone
+	SpanY     int64 // y span after the same float -> integer conversion (may differ from Span by a unit)
 	BL, TR    [2]float64
 	IDs       []int // sorted ids present
 }
@@ -114,6 +136,7 @@ func FromTMS(s Spec, t tms20.TileMatrixSet) (*Set, error) {
 	gs.OX, gs.OY = intgeom.FromGeomOrd(bl[0]), intgeom.FromGeomOrd(bl[1])
 	gs.MaxX, gs.MaxY = intgeom.FromGeomOrd(tr[0]), intgeom.FromGeomOrd(tr[1])
 	gs.Span = gs.MaxX - gs.OX
+	gs.SpanY = gs.MaxY - gs.OY
 	for id := range t.TileMatrices {
 		gs.IDs = append(gs.IDs, id)
 	}
